@@ -24,6 +24,16 @@ Conv(M, j, pmf, lo, hi) ==
 RECURSIVE TailFrom(_, _, _)
 TailFrom(pmf, b, hi) == IF b > hi THEN 0 ELSE pmf[b] + TailFrom(pmf, b + 1, hi)
 
+\* the same tail by the dynamic programme (FimoTable.tla shows DP = enumeration on the exhaustive small scope)
+LoB(M) == SumCols(M, LAMBDA A, j : IF ColMin(A, j) < 0 THEN ColMin(A, j) ELSE 0, W(M))
+HiB(M) == SumCols(M, LAMBDA A, j : IF ColMax(A, j) > 0 THEN ColMax(A, j) ELSE 0, W(M))
+RECURSIVE PmfDP(_, _, _, _, _)
+PmfDP(M, j, pmf, lo, hi) == IF j > W(M) THEN pmf ELSE PmfDP(M, j + 1, TLCEval(Conv(M, j, pmf, lo, hi)), lo, hi)
+TailTable(M) == LET lo == LoB(M) hi == HiB(M)
+                    pmf == PmfDP(M, 1, [s \in lo..hi |-> IF s = 0 THEN 1 ELSE 0], lo, hi)
+                IN TLCEval([b \in lo..(hi + 1) |-> TailFrom(pmf, b, hi)])
+TailIn(T, M, b) == IF b < LoB(M) THEN Pow4(W(M)) ELSE IF b > HiB(M) THEN 0 ELSE T[b]
+
 \* ---- scanning
 RCMotif(M) == [c \in 1..4 |-> [j \in 1..W(M) |-> M[5 - c][W(M) + 1 - j]]]
 WindowScore(M, x, start) == ScoreOf(M, SubSeq(x, start + 1, start + W(M)), W(M))          \* start 0-based
@@ -40,5 +50,16 @@ AllHits(motifs, seqs, thr, rc) ==
                     { <<m - 1, i - 1, h[1], h[1] + W(Mx), sd, h[2], TailBF(Mx, h[2])>> : h \in HitsOf(Mx, seqs[i], thr) }
                     : sd \in (IF rc THEN {0, 1} ELSE {0}) } : m \in DOMAIN motifs, i \in DOMAIN seqs }
 RCSeq(x) == [i \in 1..Len(x) |-> IF x[Len(x) + 1 - i] = -1 THEN -1 ELSE 3 - x[Len(x) + 1 - i]]
+\* the same hit set computed with the DP tail (used for wider motifs in trace validation)
+ThreshBinT(T, M, thr) ==
+    LET B == { b \in (LoB(M) - 1)..(HiB(M) + 2) : TailIn(T, M, b) * thr[2] < thr[1] * Pow4(W(M)) } IN
+    CHOOSE b \in B : \A v \in B : b <= v
+AllHitsDP(motifs, seqs, thr, rc) ==
+    UNION { UNION { LET Mx == IF sd = 0 THEN motifs[m] ELSE RCMotif(motifs[m])
+                        T == TailTable(Mx)
+                        tb == ThreshBinT(T, Mx, thr) IN
+                    UNION { { <<m - 1, i - 1, q, q + W(Mx), sd, WindowScore(Mx, seqs[i], q), TailIn(T, Mx, WindowScore(Mx, seqs[i], q))>> :
+                              q \in { q \in 0..(Len(seqs[i]) - W(Mx)) : WindowScore(Mx, seqs[i], q) > tb } } : i \in DOMAIN seqs }
+                    : sd \in (IF rc THEN {0, 1} ELSE {0}) } : m \in DOMAIN motifs }
 Mirror(H, seqs) == { <<h[1], h[2], Len(seqs[h[2] + 1]) - h[4], Len(seqs[h[2] + 1]) - h[3], 1 - h[5], h[6], h[7]>> : h \in H }
 =============================================================================
